@@ -14,12 +14,16 @@ def nonlinear_solve(mechanicalEnergy, settings, UuGuess, designParams):
 
 def nonlinear_solve_f(mechanicalEnergy, settings, UuGuess, designParams):
     Uu = nonlinear_solve(mechanicalEnergy, settings, UuGuess, designParams)
-    return Uu, (Uu, designParams)
+    # save the other parameter slots of this solve too: by the time the
+    # backward pass runs, later solves may have moved mechanicalEnergy.p on
+    p = mechanicalEnergy.p
+    return Uu, (Uu, p[0], p[1], designParams, p[4])
 
 
 def nonlinear_solve_b(mechanicalEnergy, settings, rdata, v):
-    Uu,designParams = rdata
-    mechanicalEnergy.p = Objective.param_index_update(mechanicalEnergy.p, 2, designParams)
+    Uu, bcData, stateData, designParams, time = rdata
+    pNow = mechanicalEnergy.p
+    mechanicalEnergy.p = Objective.Params(bcData, stateData, designParams, pNow[3], time, pNow[5])
     
     hess_vec_func = lambda w: mechanicalEnergy.hessian_vec(Uu, w)
     
